@@ -37,13 +37,17 @@ static int sbx_deny = 0;
 static int sbx_logall = 0;   /* VERIF_SBX_LOGALL=1: log every classified call (baseline sweeps) */
 static int sbx_inited = 0;
 
-static void sbx_init(void) {
+void verif_sbx_init(void) {
     if (sbx_inited) return;
     sbx_inited = 1;
     const char *e = getenv("VERIF_SBX_DENY");
     sbx_deny = (e && *e == '1');
     e = getenv("VERIF_SBX_LOGALL");
     sbx_logall = (e && *e == '1');
+}
+
+static void sbx_init(void) {
+    if (!sbx_inited) verif_sbx_init();
 }
 
 static int bit_index(uint32_t cls) {
